@@ -186,12 +186,15 @@ def check_extras(prog):
         obs.append(bad(RULE, key, "", "the generic comparators of sort_identity and sort_keyf differ (%s vs %s): one of them loses the 'not comparable' error" % (
             [short_path(x) for x in (ca[0] if ca else [])], [short_path(x) for x in (cb[0] if cb else [])])))
     # parse_nat: digit validity is the strict `digit < BASE`
-    cl = [c for c in prog.fns.values() if c.kind == "Closure" and c.root and c.root.startswith("jrsonnet_stdlib::strings::parse_nat")]
+    # the digit test lives in parse_nat itself or in a closure of it (fold closure / loop body)
+    cl = [c for c in prog.fns.values() if (c.path == "jrsonnet_stdlib::strings::parse_nat" or (c.kind == "Closure" and c.root and c.root == "jrsonnet_stdlib::strings::parse_nat"))]
     key = "parse_nat:digit-range"
     good = False
     for c in cl:
         for u, v, (d, val) in c._cond_edge_list():
             sd = strip(d)
+            if sd[0] == "bin" and sd[2][0] == "const":
+                continue        # `1 <= BASE && BASE <= 16` of the debug assertion: not a test of the digit
             if sd[0] == "bin" and sd[1] in ("Lt", "Ge") and isinstance(val, bool):
                 # rhs is the const generic BASE (a constant of type u32 with no literal value)
                 if sd[3][0] == "const" and sd[3][1] is None:
